@@ -20,16 +20,6 @@ func VerifCoalesceLoop(outCh chan<- Event, shutdownCh <-chan struct{},
 	return inCh, done
 }
 
-// VerifEncodeLeave encodes a leave intent as it travels in gossip.
-func VerifEncodeLeave(ltime uint64, node string, prune bool) ([]byte, error) {
-	return encodeMessage(messageLeaveType, &messageLeave{LTime: LamportTime(ltime), Node: node, Prune: prune}, false)
-}
-
-// VerifEncodeJoin encodes a join intent as it travels in gossip.
-func VerifEncodeJoin(ltime uint64, node string) ([]byte, error) {
-	return encodeMessage(messageJoinType, &messageJoin{LTime: LamportTime(ltime), Node: node}, false)
-}
-
 // FlushCap is Flush with a caller-chosen channel capacity (the caller knows an
 // upper bound on what a flush can send: the number of events coalesced since the
 // previous one). A flush that would send more blocks and is reported as nil, false.
